@@ -83,6 +83,8 @@ where
         let (input, tags) = self.src.read_buf()?;
         let n = std::cmp::min(input.len(), o.len());
         o.fill_from_slice(&input.slice()[..n]);
+        // Only tags of the samples actually copied.
+        let tags: Vec<_> = tags.into_iter().filter(|t| t.pos() < n).collect();
         o.produce(n, &tags);
         input.consume(n);
         Ok(BlockRet::Again)
